@@ -675,3 +675,46 @@ Theorem C03_digit_rs_matches_model w : 0 < w ->
   (forall low high rhs, digit_ok w low -> digit_ok w high -> DigitGen.div_rem_wide w low high rhs = div_rem_wide w low high rhs).
 Proof. exact (digit_rs_matches_model w). Qed.
 Print Assumptions C03_digit_rs_matches_model.
+
+(* ---- tie to the source: the glue layer (div / rem families) REGENERATED from /repo/src on every run
+   (Generated/Glue.v, tools/rs2v_glue.py) is the model's, function by function, for every digit width, digit count,
+   build mode and operand (no well-formedness hypothesis): an edit of the source that changes what one of these
+   one-line functions delegates to breaks this theorem ---- *)
+From Bnum.Model Require Import Digit Core Shift AddSub Mul Div Bits Pow.
+From Bnum.Generated Require Import Glue.
+From Bnum.Proofs Require Import GlueTie.
+Theorem C03_glue_rs_matches_model :
+  (forall w a b, Glue.U_div_rem w a b = U_div_rem w a b) /\
+  (forall w a b, Glue.U_checked_div w a b = U_checked_div w a b) /\
+  (forall w a b, Glue.U_checked_div_euclid w a b = U_checked_div_euclid w a b) /\
+  (forall w a b, Glue.U_checked_rem w a b = U_checked_rem w a b) /\
+  (forall w a b, Glue.U_checked_rem_euclid w a b = U_checked_rem_euclid w a b) /\
+  (forall w a b, Glue.U_wrapping_div w a b = U_wrapping_div w a b) /\
+  (forall w a b, Glue.U_wrapping_div_euclid w a b = U_wrapping_div_euclid w a b) /\
+  (forall w a b, Glue.U_wrapping_rem w a b = U_wrapping_rem w a b) /\
+  (forall w a b, Glue.U_wrapping_rem_euclid w a b = U_wrapping_rem_euclid w a b) /\
+  (forall w a b, Glue.U_saturating_div w a b = U_saturating_div w a b) /\
+  (forall w a b, Glue.U_strict_div w a b = U_strict_div w a b) /\
+  (forall w a b, Glue.U_strict_div_euclid w a b = U_div_euclid w a b) /\
+  (forall w a b, Glue.U_strict_rem w a b = U_strict_rem w a b) /\
+  (forall w a b, Glue.U_strict_rem_euclid w a b = U_rem_euclid w a b) /\
+  (forall dbg w a b, Glue.I_strict_div dbg w a b = I_strict_div dbg w a b) /\
+  (forall dbg w a b, Glue.I_strict_div_euclid dbg w a b = I_div_euclid dbg w a b) /\
+  (forall dbg w a b, Glue.I_strict_rem dbg w a b = I_strict_rem dbg w a b) /\
+  (forall dbg w a b, Glue.I_strict_rem_euclid dbg w a b = I_rem_euclid dbg w a b) /\
+  (forall dbg w a b, Glue.I_checked_div dbg w a b = I_checked_div dbg w a b) /\
+  (forall dbg w a b, Glue.I_checked_div_euclid dbg w a b = I_checked_div_euclid dbg w a b) /\
+  (forall dbg w a b, Glue.I_checked_rem dbg w a b = I_checked_rem dbg w a b) /\
+  (forall dbg w a b, Glue.I_checked_rem_euclid dbg w a b = I_checked_rem_euclid dbg w a b) /\
+  (forall dbg w a b, Glue.I_wrapping_div dbg w a b = I_wrapping_div dbg w a b) /\
+  (forall dbg w a b, Glue.I_wrapping_div_euclid dbg w a b = I_wrapping_div_euclid dbg w a b) /\
+  (forall dbg w a b, Glue.I_wrapping_rem dbg w a b = I_wrapping_rem dbg w a b) /\
+  (forall dbg w a b, Glue.I_wrapping_rem_euclid dbg w a b = I_wrapping_rem_euclid dbg w a b) /\
+  (forall dbg w a b, Glue.I_saturating_div dbg w a b = I_saturating_div dbg w a b) /\
+  (forall w a b, Glue.U_overflowing_div w a b = U_overflowing_div w a b) /\
+  (forall w a b, Glue.U_overflowing_div_euclid w a b = U_overflowing_div_euclid w a b) /\
+  (forall w a b, Glue.U_overflowing_rem w a b = U_overflowing_rem w a b) /\
+  (forall w a b, Glue.U_overflowing_rem_euclid w a b = U_overflowing_rem_euclid w a b) /\
+  (forall dbg w a b, Glue.I_overflowing_rem dbg w a b = I_overflowing_rem dbg w a b).
+Proof. exact glue_div_matches_model. Qed.
+Print Assumptions C03_glue_rs_matches_model.
